@@ -572,6 +572,25 @@ def run(tier, replay):
         samples.append({"kind": "fileops", "op": fo_rows[0]["case"]["op"], "baks": fo_rows[0]["case"]["baks"],
                         "observed_operations": fo_rows[0]["_events"]})
 
+    # ---------------- (b2') the write of the new seed file fails (file-size limit) inside the real calls
+    fault_rows = []
+    if not replay:
+        fault_rows = harness(binp, wd, "faults.jsonl", ["--mode", "faults"], env={"VERIF_SEED": str(seed)})
+        for r in fault_rows:
+            kinds["fault:%s:limit%s:%s" % (r["op"], r["limit"], {0: "ok", 1: "err", 2: "panic"}.get(r["res"], r["res"]))] += 1
+            n_eval += 1
+            why = list(r["bad"])
+            if r["res"] == 2:
+                why.append("%s panicked when the write failed: %s" % (r["op"], r["res_text"]))
+            if not r["recoverable"]:
+                why.append("%s with every write beyond %d bytes failing returned %s and no wallet.seed* file opens to the "
+                           "original seed with the old or the new password any more (files left: %s)"
+                           % (r["op"], r["limit"], {0: "Ok", 1: "an error"}.get(r["res"], "a panic"),
+                              [(f[0], f[1]) for f in r["files"]]))
+            if why:
+                oracle_fail.append({"case": {"kind": "fault", "op": r["op"], "limit": r["limit"], "seed_len": r["seed_len"]},
+                                    "failures": why})
+
     # ---------------- verdict
     for f in oracle_fail[:4]:
         V.violation({"property": PROP, "kind": "oracle", "what": f["failures"], "case": f["case"],
